@@ -523,7 +523,7 @@ static void work_setup(uint64_t wmin, uint64_t wmax) {
     case 1: n = wmax; if (n > (1u << 26)) n = wmin > (1u << 26) ? wmin : (1u << 26); break;
     case 2: n = wmin ? wmin - 1 : 0; break;
     case 3: n = 0; break;
-    case 4: if (n < (16u << 20) + 273) n = (16u << 20) + 273; break; // ample: sized in advance like upstream's drivers
+    case 4: if (n < (64u << 20) + 273) n = (64u << 20) + 273; break; // ample: sized in advance like upstream's drivers (xz -9 uses a 64 MiB dictionary)
   }
   if (n > (1ull << 30)) n = 1ull << 30;
   S.workmem = (uint8_t*)malloc(n ? n : 1);
